@@ -295,3 +295,16 @@ func verifHTTPMaxFailures(n int)      {}
 func verifHTTPRetriedSameBatch() bool { return true }
 
 func verifStepLimit(n int) {}
+
+// verifParamInt: integer parameter of the obligation (decimal), def when absent.
+func verifParamInt(name string, def int) int {
+	s := verifParam(name)
+	if s == "" {
+		return def
+	}
+	n := 0
+	for i := 0; i < len(s); i++ {
+		n = n*10 + int(s[i]-'0')
+	}
+	return n
+}
